@@ -31,7 +31,7 @@ use std::thread::sleep;
 #[cfg(not(roughenough_verif))]
 use std::time::{Duration, Instant};
 #[cfg(roughenough_verif)]
-use verif_std::{fs::File, thread::sleep, time::{Duration, Instant}};
+use verif_std::{fs::*, thread::sleep, time::*, *};
 
 pub struct Reporter {
     source_queue: Arc<StatsQueue>,
